@@ -559,4 +559,6 @@ def det_cases(tier):
     for d in DISTINCT + [62, 66, 127, 130, 192, 193, 256, 500]:
         for count in (1, 2, 7):
             cases.append(dict(distinct=d, count=count))
+    # more distinct types in one interval than the TIMING_MESSAGE table has slots
+    cases.append(dict(distinct=10040, count=1, wall_s=300))
     return cases
